@@ -81,7 +81,7 @@ fn check_text_full(text: &str, gaps: &[(&'static str, &'static str, &'static str
                     for bw in [true, false] {
                         for alg in algs_default() {
                             cx.eval();
-                            let cfg = Cfg { width: total, sep: *seps().last().unwrap(), alg, spl: Spl::Hyphen, bw, ii, si, crlf: false };
+                            let cfg = Cfg { entry: Entry::Ref, width: total, sep: *seps().last().unwrap(), alg, spl: Spl::Hyphen, bw, ii, si, crlf: false };
                             let o = cfg.opts();
                             let d = || format!("columns={} total_width={} gaps=({:?},{:?},{:?}) break_words={} algorithm={:?} initial_indent={:?} subsequent_indent={:?}", cols, total, l, m, rg, bw, alg, ii, si);
                             let rows = match cx.guard_quiet(|| wrap_columns(text, cols, o.clone(), l, m, rg)) {
